@@ -627,7 +627,7 @@ def main():
         ck.build_ok = False
     for name, obj in vlib.load_corpus(PROP):
         run_case(np, oem, ck, obj["case"] if "case" in obj else obj, frac_model, origin="corpus/" + name)
-    explore(ck, np, oem, ck.budget(90, 3000), ck.budget(60, 1500), frac_model)
+    explore(ck, np, oem, ck.budget(90, 12000), ck.budget(60, 4000), frac_model)
     if ck.broken() and not ck.violations:
         ck.notes.append("proof/tie broken: failing-input search with the thorough budget")
         explore(ck, np, oem, 3000, 1500, frac_model)
